@@ -33,7 +33,11 @@ def run(ctx):
         R.ob(ok, "WIRE", fn.where(), "WIRE|%s" % fn.name.split("::")[-1], "%s is not `param.%s(GAS_PER_BYTE = 12000)`" % (fn.name.split("::")[-1], op),
              sample={"rule": "WIRE", "fn": fn.name.split("::")[-1], "row": "%s(param, GAS_PER_BYTE=12000)" % op})
     # who calls get_inscription_byte_len: only the drain path, on the stored gas
-    users = [(f, c) for f in F.body_fns() for c in f.calls() if gi and c.target_id == gi.id]
+    from facts import is_private_helper
+    em0 = ER.engine_methods(F)
+    ubodies = list(em0.values()) + [f for f in F.body_fns() if not f.name.startswith("engine::engine::BRC20ProgEngine::") or (f.kind != "method")]
+    ubodies = [f for f in ubodies if not (f.kind in ("method", "fn") and is_private_helper(f) and f.name.startswith("engine::engine::"))]
+    users = [(f, c) for f in ubodies for c in f.calls() if gi and c.target_id == gi.id]
     R.ob(len(users) == 1 and users[0][0].name.endswith("add_raw_tx_to_block") and mentions(origin(users[0][0], users[0][1].args[0]), ".gas"), "WIRE", gi.where(),
          "WIRE|get_inscription_byte_len|users", "the inverse helper is used outside the parked-transaction path", sample={"rule": "WIRE", "users": [u[0].name for u in users]})
     # parked tx stores gas = get_gas_limit(len)
